@@ -522,6 +522,8 @@ type retFact struct {
 	// conditional fact: valid only when arg[needIP] <= len(arg[needSP]) at the call site
 	cond           bool
 	needIP, needSP int
+	// param == -2: the sequence is the field rfield of the method's receiver (seqKey is its term inside the method)
+	rfield string
 }
 
 type callCtx struct {
@@ -766,6 +768,12 @@ func (a *idxAnalyzer) refine(z *zone, e ast.Expr, truth bool) {
 				if tv, ok := a.info.Types[call.Args[1]]; ok && tv.Value != nil && tv.Value.Kind() == constant.String {
 					if sk, ok := a.seqKey(call.Args[0]); ok {
 						z.add(zeroTerm, "len("+sk+")", -len(constant.StringVal(tv.Value)))
+					}
+				} else {
+					// a text that starts with / ends with / contains another is at least as long:
+					// HasPrefix(s[p:], id) ⇒ p + len(id) <= len(s)
+					if l0, l1 := a.seqLenOf(z, call.Args[0]), a.seqLenOf(z, call.Args[1]); l0 != nil && l1 != nil {
+						a.constrainLE(z, linSub(l1, l0), 0)
 					}
 				}
 			}
@@ -1095,6 +1103,42 @@ func (a *idxAnalyzer) assign(z *zone, lhs ast.Expr, rhs ast.Expr) {
 	}
 	t := a.info.TypeOf(lhs)
 	if !isIntType(t) {
+		// h := T{text: input, …}: the struct's sequence fields have the lengths of what they were built from
+		if rhs != nil {
+			lit, _ := ast.Unparen(rhs).(*ast.CompositeLit)
+			if ue, ok := ast.Unparen(rhs).(*ast.UnaryExpr); ok && ue.Op == token.AND {
+				lit, _ = ast.Unparen(ue.X).(*ast.CompositeLit)
+			}
+			if lit != nil {
+				if _, isStruct := a.info.TypeOf(lit).Underlying().(*types.Struct); isStruct {
+					type eq struct {
+						f  string
+						ln *linExpr
+					}
+					var eqs []eq
+					for _, el := range lit.Elts {
+						kv, ok := el.(*ast.KeyValueExpr)
+						if !ok {
+							continue
+						}
+						fid, ok := kv.Key.(*ast.Ident)
+						if !ok || !a.track(a.info.TypeOf(kv.Value)) {
+							continue
+						}
+						if ln := a.seqLenOf(z, kv.Value); ln != nil {
+							eqs = append(eqs, eq{fid.Name, ln})
+						}
+					}
+					z.forget(key)
+					for _, e := range eqs {
+						fl := a.lenLin(key + "." + e.f)
+						a.constrainLE(z, linSub(fl, e.ln), 0)
+						a.constrainLE(z, linSub(e.ln, fl), 0)
+					}
+					return
+				}
+			}
+		}
 		// a sequence variable reassigned: its length facts die; model S = S[a:] etc. not needed
 		var newLen *linExpr
 		if rhs != nil {
@@ -1349,7 +1393,16 @@ func (a *idxAnalyzer) assign(z *zone, lhs ast.Expr, rhs ast.Expr) {
 			}
 		}
 		for _, f := range a.retCond[fid] {
-			if !f.cond || f.res != 0 || !f.lenOf || f.needIP >= len(call.Args) || f.needSP >= len(call.Args) || f.param >= len(call.Args) || f.param < 0 {
+			if f.cond && f.res == 0 && f.lenOf && f.param == -2 && f.needSP == -2 && f.needIP < len(call.Args) {
+				// res <= len(recv.field) provided arg <= len(recv.field) at the call
+				if sk, ok := a.recvSeqAtCall(call, f.rfield); ok {
+					if la, ok := a.lin(call.Args[f.needIP]); ok && a.proveLE(z, linSub(la, a.lenLin(sk)), 0) {
+						condFacts = append(condFacts, condApply{"len(" + sk + ")", f.w})
+					}
+				}
+				continue
+			}
+			if !f.cond || f.res != 0 || !f.lenOf || f.needIP >= len(call.Args) || f.needSP >= len(call.Args) || f.param >= len(call.Args) || f.param < 0 || f.needSP < 0 {
 				continue
 			}
 			la, ok := a.lin(call.Args[f.needIP])
@@ -1454,6 +1507,27 @@ func (a *idxAnalyzer) libResult(z *zone, key string, rhs ast.Expr) {
 	}
 	callee, _ := calleeOf(a.info, call).(*types.Func)
 	if callee == nil || callee.Pkg() == nil || callee.Pkg() == a.pkg.Types {
+		// a method of this package: one-result summaries, including facts about sequences held by its receiver
+		if se, ok := ast.Unparen(call.Fun).(*ast.SelectorExpr); ok && callee != nil {
+			for _, f := range a.retLE[callee.Origin()] {
+				if f.res != 0 || f.whenOK >= 0 || !f.lenOf || f.geParam {
+					continue
+				}
+				switch {
+				case f.param == -2:
+					if sk, ok := a.recvSeqAtCall(call, f.rfield); ok {
+						z.add(key, "len("+sk+")", f.w)
+					}
+				case f.param >= 0 && f.param < len(call.Args):
+					if sl := a.seqLenOf(z, call.Args[f.param]); sl != nil {
+						if sk, ok := sl.single(); ok {
+							z.add(key, sk, f.w+sl.c)
+						}
+					}
+				}
+			}
+			_ = se
+		}
 		// local function or closure: one-result summaries
 		if id, ok := ast.Unparen(call.Fun).(*ast.Ident); ok {
 			for _, f := range a.retLE[a.info.Uses[id]] {
@@ -1626,6 +1700,12 @@ func (a *idxAnalyzer) applyRetFacts(z *zone, lhs []ast.Expr, call *ast.CallExpr)
 				return
 			}
 			z.add(x, y, w)
+		}
+		if f.param == -2 {
+			if sk, ok := a.recvSeqAtCall(call, f.rfield); ok {
+				addE(rk, "len("+sk+")", f.w)
+			}
+			continue
 		}
 		if f.param < 0 {
 			addE(rk, "len("+f.seqKey+")", f.w)
@@ -1932,4 +2012,44 @@ func (a *idxAnalyzer) assignMinMax(z *zone, key string, rhs ast.Expr) bool {
 		z.add(e.x, e.y, e.w)
 	}
 	return true
+}
+
+// recvSeqAtCall names, at a call site recv.m(…), the sequence held in field rfield of the receiver.
+func (a *idxAnalyzer) recvSeqAtCall(call *ast.CallExpr, rfield string) (string, bool) {
+	se, ok := ast.Unparen(call.Fun).(*ast.SelectorExpr)
+	if !ok || rfield == "" {
+		return "", false
+	}
+	rk, ok := a.termKey(se.X)
+	if !ok {
+		return "", false
+	}
+	return rk + "." + rfield, true
+}
+
+// recvSeqFields lists the tracked sequence fields of a method's receiver: (term inside the method, field name).
+func (a *idxAnalyzer) recvSeqFields(fd *ast.FuncDecl) [][2]string {
+	if fd == nil || fd.Recv == nil || len(fd.Recv.List) != 1 || len(fd.Recv.List[0].Names) != 1 {
+		return nil
+	}
+	rn := fd.Recv.List[0].Names[0]
+	rk, ok := a.termKey(rn)
+	if !ok {
+		return nil
+	}
+	t := a.info.TypeOf(rn)
+	if pt, ok := t.(*types.Pointer); ok {
+		t = pt.Elem()
+	}
+	st, ok := t.Underlying().(*types.Struct)
+	if !ok {
+		return nil
+	}
+	var out [][2]string
+	for i := 0; i < st.NumFields(); i++ {
+		if a.track(st.Field(i).Type()) {
+			out = append(out, [2]string{rk + "." + st.Field(i).Name(), st.Field(i).Name()})
+		}
+	}
+	return out
 }
